@@ -7,4 +7,6 @@ INVARIANT Emit
 INVARIANT TypeOK
 INVARIANT RoundTrip
 INVARIANT VariedFollows
+INVARIANT StepsFollow
+INVARIANT StepsizesDomain
 CHECK_DEADLOCK FALSE
